@@ -209,21 +209,26 @@ ADDENDA = {
     "C01": "Further input families: schema family K2 incl. its typed spread matrix (position type x fragment type x inner type in five shapes, two-operation documents sharing a fragment), "
            "fragment DAGs with permuted names and subset spreads, configured custom scalars at every result position, pruning options, the repository's own fixture projects.",
     "C02": "Further families: ordered operation pairs each with its own fragments, variables named like method locals incl. subscriptions, tracer variants on the websocket path.",
-    "C03": "Also subscriptions (websocket capture), configured scalars with serialize at input-field / list positions and in several variables and operations, tracer variants of the OpenTelemetry clients.",
+    "C03": "Also subscriptions (websocket capture), configured scalars with serialize at input-field / list positions and in several variables and operations, tracer variants of the OpenTelemetry clients. Round 6: a nullable top-level variable of a configured scalar called with present values incl. a falsy one; input FIELDS of every wrapper shape (one input type per shape x Int / nested input / enum).",
     "C04": "Also: every 3-fragment DAG x name permutation x subset spread, a member-name catalogue derived from keyword.kwlist and dir(pydantic.BaseModel) incl. camelCase/PascalCase spellings in four positions, "
-           "a configured scalar at exactly one position of the package, custom operations with renamed modules.",
+           "a configured scalar at exactly one position of the package, custom operations with renamed modules. Round 6: non-root object / interface fields with input-object and enum arguments under renamed modules.",
     "C05": "Also schema family K2 with the typed spread matrix and shared-fragment two-operation documents; when the sent document is unusable the authored operation (after the documented __typename rewrite) answers.",
-    "C06": "Also the full member-name catalogue as field names, defaults on fields contributed by `extend input`, two scalars of one Python type with their own serializers.",
-    "C07": "Also two scalars sharing one Python type, a scalar whose class is its own parser, scalars reachable only through nested inputs under include_all_inputs=false, top-level scalar fields with and without ShorterResults.",
+    "C06": "Also the full member-name catalogue as field names, defaults on fields contributed by `extend input`, two scalars of one Python type with their own serializers. Round 6: defaults naming Enum attributes (name, value).",
+    "C07": "Also two scalars sharing one Python type, a scalar whose class is its own parser, scalars reachable only through nested inputs under include_all_inputs=false, top-level scalar fields with and without ShorterResults. Round 6: the second value of every scalar menu is a valid FALSY value.",
     "C08": "Also the K2 typed spread matrix, subset spreads, inline fragments on super-types as demand scopes, every sequence (<=3) of directives around @mixin on four kinds of sites.",
-    "C13": "Frames outside the model's alphabet (null data, foreign ids, payload variants, JSON non-objects, bytes) are decided differentially: all sequences of <=2 such frames x variable configurations, every OpenTelemetry variant against the plain client.",
-    "C14": "Also schema-derived expressions: every catalogue / harvested identifier (names bound anywhere in the generated code) as attribute field, method field, root field, argument and root argument; every directed reference graph on 3 object types x field orders.",
-    "C15": "Also the single top-level field in every type kind x arrangements of operations (incl. root fragments, custom operations), uploads, module-form plugin entries.",
+    "C13": "Frames outside the model's alphabet (null data, foreign ids, payload variants, JSON non-objects, bytes) are decided differentially: all sequences of <=2 such frames x variable configurations, every OpenTelemetry variant against the plain client. Round 6: two subscriptions alive at once on ONE client object, every schedule of the two tasks within a deviation bound (2 quick / 3 thorough) on a virtual asyncio loop, 25 script pairs x 7 variants, each iterator compared with the model's expectation for its own frame sequence.",
+    "C14": "Also schema-derived expressions: every catalogue / harvested identifier (names bound anywhere in the generated code) as attribute field, method field, root field, argument and root argument; every directed reference graph on 3 object types x field orders. Round 6: an argument-VALUE family (falsy values, explicit nulls inside input objects, serialized custom scalars) at root fields, nested method fields and mutations.",
+    "C15": "Also the single top-level field in every type kind x arrangements of operations (incl. root fragments, custom operations), uploads, module-form plugin entries. Round 6: a root-level __typename next to the single field, plain / aliased / through a root fragment.",
     "C16": "Also description text x place of the description, every order of implemented interfaces, target extension spellings, both schema sources configured at once.",
-    "C17": "Constraint violations are repeated under base configurations (custom operations, sync, plugin); immutability of the configuration is checked for the settings readers and for the whole command.",
-    "C18": "Also operation names equal to every module stem of the package (computed per configuration), wire names through all four base clients, aliased __typename and subscription variables as scopes.",
-    "C19": "Also odd file / directory names (dot-prefixed, glob characters, directory named like a file), header value x environment content menu, configured scalars per source, every status class with a well-formed body, both sources at once.",
+    "C17": "Constraint violations are repeated under base configurations (custom operations, sync, plugin); immutability of the configuration is checked for the settings readers and for the whole command. Round 6: plugins whose process_schema hides or adds fields, with operations valid for exactly one of the two schemas.",
+    "C18": "Also operation names equal to every module stem of the package (computed per configuration), wire names through all four base clients, aliased __typename and subscription variables as scopes. Round 6: six document shapes around an operation named like a module (which optional modules exist varies), object-valued response keys as a naming scope.",
+    "C19": "Also odd file / directory names (dot-prefixed, glob characters, directory named like a file), header value x environment content menu, configured scalars per source, every status class with a well-formed body, both sources at once. Round 6: type system extensions (extend input / enum / type) against the hand-merged schema for every source, environment variable names with '-', '.', a leading digit or non-ASCII letters.",
 }
+ADDENDA["C09"] = "Round 6: the only variable reaching the last input wrapped in every list / non-null shape."
+ADDENDA["C10"] = "Round 6: repeated and many @mixin directives on fields and fragment definitions as stress input."
+ADDENDA["C11"] = ("Round 6: a constructor family (headers= / http_client= in every combination, two clients sharing one http client, the client building its own http client) and response bodies "
+                  "declared JSON that are not GraphQL responses, both under six-variant agreement.")
+ADDENDA["C12"] = "Round 6: falsy-member families (error objects with empty / falsy members alone, before and after ordinary errors; falsy data values with and without errors)."
 for _k, _v in ADDENDA.items():
     CHECKS[_k]["text"] = CHECKS[_k]["text"] + " " + _v
 
